@@ -131,6 +131,7 @@ func namesOfKind(r lint.Registry) (c, o, l []string) {
 }
 
 func observeFilter(g lint.Registry, f FilterSpec) (coq string, class string, fr lint.Registry, errText string) {
+	tick()
 	var err error
 	var pv interface{}
 	func() {
